@@ -200,6 +200,9 @@ def run_case(case, ctx):
                 exc_tagger=lambda e, tb: {"raised_in": "_relative_change" if "_relative_change" in tb.splitlines()[-3] + tb.splitlines()[-4]
                                           else "elsewhere"})
     ctx.count("fits")
+    if calls["n"] == 0 and any(e["type"] == "cb" and e["event"] == "epoch_end" and e["epoch"] % pe == 0 for e in log):
+        ctx.count("scripted_values_not_delivered")  # the evaluator no longer obtains its values through the stubbed call
+        return
     ended = [e["epoch"] for e in log if e["type"] == "cb" and e["event"] == "epoch_end"]
     last = ended[-1] if ended else None
     stopped = bool(st.stop_training)
